@@ -11,7 +11,7 @@ import (
 func init() { propChecks["C13"] = checkC13 }
 
 var c13Names = append(append([]string{}, genNames...), `he said "hi" twice`, `a,"b",c`, `semi;colon`, `ünïcödé`, `bread 🍞`, `o'neil`, `x	y`)
-var c13Qty = []string{"-1", "0.5", "1e-7", "0.0005", "2.675", "1.005", "123456789.125", "1e15", "-0.004", "0.0015", "-2.5e-4", "7"}
+var c13Qty = []string{"-1", "0.5", "1e-7", "0.0005", "2.675", "1.005", "123456789.125", "1e15", "-0.004", "0.0015", "-2.5e-4", "7", "94.05090880450125", "9007199254740993"}
 
 var amt3Re = regexp.MustCompile(`^-?[0-9]+\.[0-9]{3}$`)
 var amt2Re = regexp.MustCompile(`^-?[0-9]+\.[0-9]{2}$`)
@@ -152,6 +152,62 @@ func checkC13(w *Worker) {
 			c = appCase{Args: []string{"csv", cmd}, Files: map[string]string{"food.yaml": sb.String()}}
 		}
 		x.Case(fmt.Sprint("large", which, n), true)
+		verify(x, c, want, dec, []string{"log", "database", "database-resolved"}[which])
+	})
+	// calendar: every day around every turn of the year 2018..2027 (ISO week-years differ from calendar years there), the
+	// ends of February, and far-away years; one row per day, dates ISO formatted
+	w.Explore("csv-log-calendar", ExploreOpts{ShardDepth: 1}, func(x *Exec) {
+		order := x.Choose(2, "input:order")
+		var days []string
+		for y := 2018; y <= 2027; y++ {
+			for d := 24; d <= 31; d++ {
+				days = append(days, fmt.Sprintf("%04d/12/%02d", y, d))
+			}
+			for d := 1; d <= 8; d++ {
+				days = append(days, fmt.Sprintf("%04d/01/%02d", y+1, d))
+			}
+			days = append(days, fmt.Sprintf("%04d/02/28", y), fmt.Sprintf("%04d/03/01", y))
+			if y%4 == 0 {
+				days = append(days, fmt.Sprintf("%04d/02/29", y))
+			}
+		}
+		days = append(days, "1970/01/01", "1969/12/31", "1900/02/28", "2000/02/29", "2100/03/01", "0001/01/01", "9999/12/31", "1582/10/10")
+		if order == 1 {
+			for l, r := 0, len(days)-1; l < r; l, r = l+1, r-1 {
+				days[l], days[r] = days[r], days[l]
+			}
+		}
+		var sb strings.Builder
+		var want []csvWant
+		for i, d := range days {
+			sb.WriteString(fmt.Sprintf("%s:\n  food %d: %d\n", d, i%7, i+1))
+			want = append(want, csvWant{strings.ReplaceAll(d, "/", "-"), fmt.Sprintf("food %d", i%7), exactDec(fmt.Sprint(i + 1))})
+		}
+		x.Case(fmt.Sprint("calendar", order), true)
+		verify(x, appCase{Args: []string{"csv", "log"}, Files: map[string]string{"food.yaml": "", "log.yaml": sb.String()}}, want, 3, "log")
+	})
+	// fields longer than the 4096-byte buffers, with characters that need quoting
+	w.Explore("csv-very-long-names", ExploreOpts{ShardDepth: 1}, func(x *Exec) {
+		which := x.Choose(3, "input:export")
+		long1 := strings.Repeat("long, \"quoted\" name ", 300) + "end"
+		long2 := "z" + strings.Repeat("ü", 4100)
+		var c appCase
+		var want []csvWant
+		dec := 3
+		switch which {
+		case 0:
+			c = appCase{Args: []string{"csv", "log"}, Files: map[string]string{"food.yaml": "", "log.yaml": "2021/01/24:\n  " + long1 + ": 1.5\n  short: 2\n  " + long2 + ": -1\n  " + long1 + ": 1\n"}}
+			want = []csvWant{{"2021-01-24", long1, exactDec("2.5")}, {"2021-01-24", "short", exactDec("2")}, {"2021-01-24", long2, exactDec("-1")}}
+		case 1:
+			dec = 2
+			c = appCase{Args: []string{"csv", "database"}, Files: map[string]string{"food.yaml": long1 + ":\n  " + long2 + ": 1.5\n  cal: 2\nshort:\n  " + long1 + ": 1\n"}}
+			want = []csvWant{{long1, long2, exactDec("1.5")}, {long1, "cal", exactDec("2")}, {"short", long1, exactDec("1")}}
+		default:
+			dec = 2
+			c = appCase{Args: []string{"csv", "database-resolved"}, Files: map[string]string{"food.yaml": long1 + ":\n  " + long2 + ": 1.5\n  cal: 2\nshort:\n  " + long1 + ": 2\n"}}
+			want = []csvWant{{long1, "cal", exactDec("2")}, {long1, long2, exactDec("1.5")}, {"short", "cal", exactDec("4")}, {"short", long2, exactDec("3")}}
+		}
+		x.Case(fmt.Sprint("long-names", which), true)
 		verify(x, c, want, dec, []string{"log", "database", "database-resolved"}[which])
 	})
 	w.Explore("csv-log-wide-days", ExploreOpts{ShardDepth: 2}, func(x *Exec) {
